@@ -206,7 +206,7 @@ Example demo_facts :
 Proof. vm_compute. repeat split; reflexivity. Qed.
 
 Example demo_same_static : same_static demo_book demo_book.
-Proof. constructor; reflexivity. Qed.
+Proof. constructor; try reflexivity; intros; tauto. Qed.
 
 (** local_equations: node 1 of the example has two children, costs are well formed *)
 Example demo_local_hyps :
